@@ -16,6 +16,13 @@ type NullLit struct{}
 type Str struct{ V string }
 type Var struct{ Name string }
 
+// RawStr - a text literal given by its exact source spelling (Src, quotes included, may span
+// physical lines) and the value it denotes
+type RawStr struct {
+	Src string
+	Val string
+}
+
 // Bin - binary operator. Op is the canonical symbol:
 //
 //   - - * / | %     == /= > < >= <=  为 不为     且 或
